@@ -141,13 +141,39 @@ def run(R):
                 "a task can be put into the table without a completion callback: it stays there after it completes, every later call gets the finished task",
                 cfg.fmt_path(p) if p else None)
         cbs = []
+        # locals that are just another name for the table (the in-flight dict is a class attribute nothing rebinds)
+        table_names = set(["self.tasks"]) | set(t_.id for n_ in q.scope_nodes(asy.node) if isinstance(n_, ast.Assign) and q.src(n_.value) == "self.tasks"
+                                                for t_ in n_.targets if isinstance(t_, ast.Name))
+        pop_names = tuple(x + ".pop" for x in table_names)
         for n, c in kit.call_sites(asy, lambda c: q.call_name(c) == "%s.on_computed.subscribe" % tv.id):
             if c.args and isinstance(c.args[0], ast.Name):
                 cbs.append(c.args[0].id)
+        # the key names the function by id(self.fn): it identifies the function only while the function is alive.  The entry lives
+        # until its task completes, so for that long something reachable from the entry must hold the decorator (and with it the
+        # function): the completion callback, which the task holds, refers to self.  A callback that captures only the table lets a
+        # dynamically created function be collected while its call is in flight; the next function created at that address (same
+        # id, equal arguments, same thread) is handed the dead function's task
+        for n, c in kit.call_sites(asy, lambda c: q.call_name(c) == "%s.on_computed.subscribe" % tv.id):
+            if not c.args:
+                continue
+            cb = c.args[0]
+            if isinstance(cb, ast.Name):
+                cbf_ = [f for f in asy.nested.values() if f.node.name == cb.id]
+                names = set(x.id for f in cbf_ for x in ast.walk(f.node) if isinstance(x, ast.Name)) if cbf_ else set(["self"])
+            elif isinstance(cb, ast.Attribute) and q.src(cb.value) == "self":
+                names = set(["self"])       # a bound method
+            else:
+                names = set(x.id for x in ast.walk(cb) if isinstance(x, ast.Name))
+            stored_self = "self" in set(x.id for x in ast.walk(st.ast.value) if isinstance(x, ast.Name))
+            R.check("self" in names or stored_self, "C12.KEY-ALIVE", asy.qualname + ":callback-holds-self", R.site(asy, c),
+                    "the in-flight entry keeps the decorator (and the function whose id() is in the key) alive until the task completes",
+                    "neither the stored value nor the completion callback (`%s`) refers to self: nothing keeps the function alive while its call is in flight, "
+                    "although the key contains id(self.fn) - after the function is collected a new function at the same address gets its pending task"
+                    % q.src(cb)[:60])
         for n, c in kit.call_sites(asy, lambda c: q.call_name(c) == "%s.on_computed.subscribe" % tv.id):
             if c.args and not isinstance(c.args[0], ast.Name):
                 body = c.args[0].body if isinstance(c.args[0], ast.Lambda) else None
-                okl = body is not None and isinstance(body, ast.Call) and q.call_name(body) == "self.tasks.pop" and body.args and q.src(body.args[0]) == key and len(body.args) == 2
+                okl = body is not None and isinstance(body, ast.Call) and q.call_name(body) in pop_names and body.args and q.src(body.args[0]) == key and len(body.args) == 2
                 R.check(okl, "C12.PAIR", asy.qualname + ":callback", R.site(asy, c),
                         "the completion callback removes exactly the key the task was stored under",
                         "the completion callback (`%s`) does not remove the key the task was stored under (a key recomputed when the task completes - on "
@@ -155,8 +181,8 @@ def run(R):
         for cbn in cbs:
             cbf = [f for f in asy.nested.values() if f.node.name == cbn]
             R.need(cbf, "idiom: completion callback %s is not a local function" % cbn)
-            pops = [c for c in q.calls(cbf[0].node) if q.call_name(c) in ("self.tasks.pop",) and c.args and q.src(c.args[0]) == key]
-            dels = [n for n in ast.walk(cbf[0].node) if isinstance(n, ast.Delete) and q.src(n.targets[0]) == "self.tasks[%s]" % key]
+            pops = [c for c in q.calls(cbf[0].node) if q.call_name(c) in pop_names and c.args and q.src(c.args[0]) == key]
+            dels = [n for n in ast.walk(cbf[0].node) if isinstance(n, ast.Delete) and q.src(n.targets[0]) in tuple("%s[%s]" % (x, key) for x in table_names)]
             R.check(bool(pops or dels), "C12.PAIR", asy.qualname + ":callback", R.site(cbf[0]),
                     "the completion callback removes exactly the key the task was stored under",
                     "the completion callback does not remove the key the task was stored under")
